@@ -496,7 +496,7 @@ impl DomGen {
                 if r.chance(1, 6) {
                     let known: Vec<String> = settable.iter().map(|(n, _, _)| n.clone()).collect();
                     let (name, v) = match r.below(4) {
-                        0 => ((*r.pick(&[" Name", "Name ", "NAME", "nAME", "Name\u{a0}", "ClassName", "Parent", "Referent", "referent"])).to_owned(), Variant::String(format!("tricky{}", r.below(9)))),
+                        0 => ((*r.pick(&[" Name", "Name ", "NAME", "nAME", "Name\u{a0}", "ClassName", "Parent", "Referent", "referent", "", " ", "\u{a0}"])).to_owned(), Variant::String(format!("tricky{}", r.below(9)))),
                         _ if !known.is_empty() => {
                             let base = r.pick(&known).clone();
                             let alt = match r.below(3) {
